@@ -116,9 +116,9 @@ def reason (X : Compile.TP) (ti : TreeInfo) (root : GoNode) : String :=
       | none => if mapCapnum (mainCfg ti) 0 != 0 then "slot0" else "unknown"
   | _ => "root"
 
-/-- the smallest `k ∈ {1,2,3,4}` with `Compile.InFrag k` -/
+/-- the smallest `k ∈ {1,…,8}` with `Compile.InFrag k` -/
 def cover (X : Compile.TP) (ti : TreeInfo) (root : GoNode) : Option Nat :=
-  [1, 2, 3, 4].find? (fun k => Compile.InFrag k X ti root)
+  [1, 2, 3, 4, 5, 6, 7, 8].find? (fun k => Compile.InFrag k X ti root)
 
 /-! ### both sides of the statement on one input -/
 
